@@ -2715,8 +2715,9 @@ impl LpgStore {
         }
 
         // Compute per-edge-type statistics
-        let id_to_edge_type = self.id_to_edge_type.read();
+        // Lock order: entity storage before the catalogs
         let edges = self.edges.read();
+        let id_to_edge_type = self.id_to_edge_type.read();
         let epoch = self.current_epoch();
 
         let mut edge_type_counts: FxHashMap<u32, u64> = FxHashMap::default();
